@@ -191,7 +191,7 @@ def run_case(prog, hist, ref, collect_all=False):
 
                     v = importlib.import_module("spox.opset.ai.onnx.v" + k[2:]).identity(a)  # a genuinely newer operator
                 elif k == "lift":
-                    v = op.reduce_sum(op.cast(a, to=np.float32), keepdims=0)
+                    v = lf.lift_var(op, a)
                 elif k == "neg":
                     v = op.neg(a)
                 else:
@@ -379,7 +379,7 @@ def gen_reuse_family(rng: random.Random, n):
         p = copy.deepcopy(base)
         for nd in lf.walk(p["nodes"]):
             if nd["k"] == "arg":
-                nd["ty"] = lf.gen_type(rng)
+                nd["ty"] = lf.gen_type(rng, "e" in nd["ty"])  # keep tensor arguments tensors (Cast nodes refer to their dims)
             elif nd["k"] == "const":
                 nd["v"] = float(rng.randrange(-3, 4))
         progs.append(p)
